@@ -299,7 +299,7 @@ impl Prop for WeightHistory {
         "weight-history".into()
     }
     fn rule(&self) -> String {
-        "engine of 1..3 generated voices (base + variants); history of 1..12 operations: weight updates on duration / parameter[i] / gv[i] slots - each valid (dyadic, exact sum 1) or invalid (wrong length (shorter, longer, empty) | sum off by 1e-6..0.5 | NaN | +-inf) - or a reload (the engine's voice set replaced by one of 1..3 voices followed by Condition::load_model, which must reset every slot to the equal weights of the new set); after every update the result (Ok/Err) and all weight getters are compared with the reference model; finally the waveform is compared with a fresh engine given only the accepted vectors. Non-trivial: a rejected update after an accepted one on the same slot".into()
+        "engine of 1..3 generated voices (base + variants); history of 1..12 operations: weight updates on duration / parameter[i] / gv[i] slots - each valid (dyadic, exact sum 1) or invalid (wrong length (shorter, longer, empty; also the weights currently in force with entries appended or the last one dropped) | sum off by 1e-6..0.5 | NaN | +-inf) - or a reload (the engine's voice set replaced by one of 1..3 voices followed by Condition::load_model, which must reset every slot to the equal weights of the new set); after every update the result (Ok/Err) and all weight getters are compared with the reference model; finally the waveform is compared with a fresh engine given only the accepted vectors. Non-trivial: a rejected update after an accepted one on the same slot".into()
     }
     fn tape_len(&self, _: Tier) -> usize {
         16000
@@ -325,7 +325,7 @@ impl Prop for WeightHistory {
                     1 => Slot::Parameter(t.below(nstreams)),
                     _ => Slot::Gv(t.below(nstreams)),
                 };
-                let kind = ["valid", "valid", "valid", "wrong-length", "sum-off", "nan", "inf", "inf-single", "reload"][t.below(9)];
+                let kind = ["valid", "valid", "valid", "wrong-length", "sum-off", "nan", "inf", "inf-single", "reload", "extends-current", "valid", "truncates-current"][t.below(12)];
                 if kind == "reload" {
                     // replace the voice set by one of another size and re-run Condition::load_model
                     let m = t.urange(1, 3);
@@ -338,6 +338,10 @@ impl Prop for WeightHistory {
                         let m = *t.pick(&[n + 1, n.saturating_sub(1), 0, n + 3]);
                         if m == 0 { vec![] } else { gen_weights(t, m) }
                     }
+                    // the weights in force on that slot at that moment, with entries appended /
+                    // the last one dropped (built in the check, which knows the history)
+                    "extends-current" => (0..t.urange(1, 2)).map(|_| *t.pick(&[0.0, 0.5, 0.25, 1.0])).collect(),
+                    "truncates-current" => vec![],
                     "sum-off" => {
                         let mut w = gen_weights(t, n);
                         let off = t.log_uniform(1e-6, 0.5) * if t.chance(0.5) { -1.0 } else { 1.0 };
@@ -411,7 +415,15 @@ impl Prop for WeightHistory {
                 check_getters(&engine, &m_dur, &m_par, &m_gv, &format!("after update #{} (reload with {} voices: weights must be the defaults of the new set)", k, m))?;
                 continue;
             }
-            let w = u.weights();
+            let mut w = u.weights();
+            if u.kind == "extends-current" || u.kind == "truncates-current" {
+                let cur = match u.slot {
+                    Slot::Duration => m_dur.clone(),
+                    Slot::Parameter(i) => m_par[i].clone(),
+                    Slot::Gv(i) => m_gv[i].clone(),
+                };
+                w = if u.kind == "extends-current" { cur.into_iter().chain(w).collect() } else { cur[..cur.len() - 1].to_vec() };
+            }
             // classify against the voice count now in force
             let valid_now = u.valid() && w.len() == n;
             let iw = engine.condition.get_interporation_weight_mut();
